@@ -77,7 +77,7 @@ func NewSimpleLogic(config *Config, sms smsModule, cacheM CacheModule) VCLogic {
 }
 
 func (s *sender) SendSMSCode(areaCode, phone string) (string, error) {
-	var key = fmt.Sprintf("%s-%s", areaCode, phone)
+	var key = cacheKey(areaCode, phone)
 	var now = time.Now()
 	var c = s.fetchCache(key, true)
 	if c == nil {
@@ -97,12 +97,17 @@ func (s *sender) SendSMSCode(areaCode, phone string) (string, error) {
 }
 
 func (s *sender) VerifySMSCode(areaCode, phone, code, hash string) error {
-	var key = fmt.Sprintf("%s%s", areaCode, phone)
+	var key = cacheKey(areaCode, phone)
 	var c = s.fetchCache(key, false)
 	if c == nil {
 		return ErrVerifyCodeNotExist
 	}
 	return s.checkVerify(c, code, hash)
+}
+
+// cacheKey is the cache key of an (area code, phone) pair; sending and verifying must agree on it.
+func cacheKey(areaCode, phone string) string {
+	return fmt.Sprintf("%s-%s", areaCode, phone)
 }
 
 func (s *sender) fetchCache(key string, peek bool) *vCache {
